@@ -44,17 +44,66 @@ Proof.
   destruct (ai =? 27); [intros E; apply (G 8%nat 4294967296 E); lia|discriminate].
 Qed.
 
-(* finite check: on all 65536 half-precision patterns the decoder's two-step widening agrees with
-   the SPEC's direct one *)
-Definition halves : list N := map N.of_nat (seq 0 (N.to_nat 65536)).
-Lemma widen16_agree_all : forallb (fun y => widen16 y =? widen16_spec y) halves = true.
-Proof. vm_compute. reflexivity. Qed.
+(* the decoder's two-step widening of a binary16 pattern (refmt: half -> single bits, then Go's
+   float64(float32)) agrees with the SPEC's direct one, for every 16-bit pattern: field arithmetic, no sweep *)
+(* the three fields of a binary32 pattern assembled from sign, exponent and mantissa *)
+Lemma w32_fields s e m : s < 2 -> e < 256 -> m < 8388608 ->
+  (s * 2147483648 + e * 8388608 + m) / 2147483648 = s /\
+  ((s * 2147483648 + e * 8388608 + m) / 8388608) mod 256 = e /\
+  (s * 2147483648 + e * 8388608 + m) mod 8388608 = m.
+Proof. intros. lia. Qed.
+
+Lemma widen32_fields s e m : s < 2 -> e < 256 -> m < 8388608 ->
+  widen32 (s * 2147483648 + e * 8388608 + m) =
+  let sign := s * 9223372036854775808 in
+  if e =? 0 then
+    if m =? 0 then sign
+    else let p := N.log2 m in sign + (p + 874) * 4503599627370496 + (m - 2 ^ p) * 2 ^ (52 - p)
+  else if e =? 255 then sign + 2047 * 4503599627370496 + m * 536870912
+  else sign + (e + 896) * 4503599627370496 + m * 536870912.
+Proof.
+  intros Hs He Hm. destruct (w32_fields s e m Hs He Hm) as (E1 & E2 & E3).
+  unfold widen32. rewrite E1, E2, E3. reflexivity.
+Qed.
 
 Lemma widen16_agree y : y < 65536 -> widen16 y = widen16_spec y.
 Proof.
-  intros Hy. pose proof widen16_agree_all as H. rewrite forallb_forall in H.
-  apply N.eqb_eq, H. unfold halves. apply in_map_iff. exists (N.to_nat y). split; [lia|].
-  apply in_seq. lia.
+  intros Hy. unfold widen16, widen16_spec, half_to_single.
+  assert (Hs : (y / 32768) mod 2 < 2) by lia.
+  assert (He : (y / 1024) mod 32 < 32) by lia.
+  assert (Hm : y mod 1024 < 1024) by lia.
+  generalize dependent ((y / 32768) mod 2). intros s Hs.
+  generalize dependent ((y / 1024) mod 32). intros e He.
+  generalize dependent (y mod 1024). intros m Hm. clear y Hy. cbv zeta.
+  destruct (N.eqb_spec e 0) as [->|He0].
+  - destruct (N.eqb_spec m 0) as [->|Hm0].
+    + replace (s * 2147483648) with (s * 2147483648 + 0 * 8388608 + 0) by lia.
+      rewrite widen32_fields by lia. reflexivity.
+    + pose proof (N.log2_spec m ltac:(lia)) as [Hlo Hhi]. set (p := N.log2 m) in *.
+      assert (Hp : p <= 9).
+      { destruct (N.le_gt_cases p 9) as [|Hgt]; [assumption|]. exfalso.
+        assert (2 ^ 10 <= 2 ^ p) by (apply N.pow_le_mono_r; lia). change (2 ^ 10) with 1024 in *. lia. }
+      assert (Hsplit : 2 ^ p * 2 ^ (23 - p) = 8388608).
+      { rewrite <- N.pow_add_r. replace (p + (23 - p)) with 23 by lia. reflexivity. }
+      assert (Hsucc : 2 ^ N.succ p = 2 * 2 ^ p) by (rewrite N.pow_succ_r'; reflexivity).
+      set (k := (m - 2 ^ p) * 2 ^ (23 - p)).
+      assert (Hk : k < 8388608).
+      { unfold k. rewrite <- Hsplit. apply N.mul_lt_mono_pos_r; [|lia].
+        assert (0 < 2 ^ (23 - p)) by (apply N.neq_0_lt_0, N.pow_nonzero; lia). assumption. }
+      replace (s * 2147483648 + (p + 103) * 8388608 + k) with (s * 2147483648 + (p + 103) * 8388608 + k) by reflexivity.
+      rewrite widen32_fields by lia. cbv zeta.
+      destruct (N.eqb_spec (p + 103) 0); [lia|]. destruct (N.eqb_spec (p + 103) 255); [lia|].
+      replace (p + 103 + 896) with (p + 999) by lia. f_equal.
+      unfold k. rewrite <- N.mul_assoc. f_equal.
+      change 536870912 with (2 ^ 29). rewrite <- N.pow_add_r. f_equal. lia.
+  - destruct (N.eqb_spec e 31) as [->|He31].
+    + destruct (N.eqb_spec m 0) as [->|Hm0].
+      * replace (s * 2147483648 + 2139095040) with (s * 2147483648 + 255 * 8388608 + 0) by lia.
+        rewrite widen32_fields by lia. cbv zeta. cbn [N.eqb Pos.eqb]. lia.
+      * replace (s * 2147483648 + 2139095040 + m * 8192) with (s * 2147483648 + 255 * 8388608 + m * 8192) by lia.
+        rewrite widen32_fields by lia. cbv zeta. cbn [N.eqb Pos.eqb]. lia.
+    + rewrite widen32_fields by lia. cbv zeta.
+      destruct (N.eqb_spec (e + 112) 0); [lia|]. destruct (N.eqb_spec (e + 112) 255); [lia|]. lia.
 Qed.
 
 Lemma finite_iff f : f64_finite f = negb (f64_is_nan f || f64_is_inf f).
